@@ -326,6 +326,7 @@ type c10Attempt struct {
 // c10Try runs one attempt of req with the given failure point.
 // taskIdx >= 0: fail before that task; backendOp != "": arm that backend fault.
 func c10Try(w *world, req worldReq, taskIdx int, backendOp string) (*c10Attempt, error) {
+	w.pruneChanges() // earlier attempts' changes: keeps the state (and every checkpoint) small
 	a := &c10Attempt{before: w.view(req.Snap), linkIdx: -1}
 	opsFrom := w.opCount()
 	chg, err := w.request(req)
